@@ -2588,7 +2588,10 @@ func (c *Compiler) BuildBaseType(
 	typ2 := refType.ChildByType(parse.NodeTyp)
 	tdef := refType.Def()
 	thasdef := refType.HasDef()
-	return c.BuildType(cfgNode, typ2, tdef, thasdef, schema.Current), tname, false
+	// The type of the typedef is a reference that the typedef makes, with
+	// the status the typedef has
+	return c.BuildType(cfgNode, typ2, tdef, thasdef,
+		c.getStatus(refType, schema.Current)), tname, false
 }
 
 func (c *Compiler) CheckMinMax(n parse.Node, min, max uint) {
